@@ -141,6 +141,7 @@ impl<'tcx> Cx<'tcx> {
             let _ = write!(s, ",\"fn\":{}", esc(&tcx.def_path_str(*d)));
         }
         // a reference to a scalar constant (`&BORDER` promoted for `a.cmp(&BORDER)`): the value behind the reference
+        let mut have_pv = false;
         if let ty::Ref(_, inner, _) = ty.kind() {
             if inner.is_integral() || inner.is_bool() {
                 if let Ok(val) = c.const_.eval(tcx, typing_env, c.span) {
@@ -158,7 +159,44 @@ impl<'tcx> Cx<'tcx> {
                                         v |= (*b as u128) << (8 * i);
                                     }
                                     let _ = write!(s, ",\"pv\":{}", esc(&v.to_string()));
+                                    have_pv = true;
                                 }
+                            }
+                        }
+                    }
+                }
+            }
+        }
+        // inside a generic function the promoted constant as a whole cannot be evaluated; its body can be read: `_1 = const X; _0 = &_1`
+        // with X a constant that does not depend on the parameters
+        if !have_pv {
+            if let (ty::Ref(_, inner, _), MConst::Unevaluated(uv, _)) = (ty.kind(), c.const_) {
+                if let (true, Some(pi)) = (inner.is_integral() || inner.is_bool(), uv.promoted) {
+                    if uv.def.is_local() {
+                        let proms = tcx.promoted_mir(uv.def);
+                        if let Some(pb) = proms.get(pi) {
+                            let mut vals: Vec<(String, String)> = vec![];
+                            let mut other = 0;
+                            for bb in pb.basic_blocks.iter() {
+                                for st in &bb.statements {
+                                    if let StatementKind::Assign(b) = &st.kind {
+                                        match &b.1 {
+                                            Rvalue::Use(Operand::Constant(c2), ..) => {
+                                                if let Some(si) = c2.const_.try_eval_scalar_int(tcx, typing_env) {
+                                                    let d2 = if let MConst::Unevaluated(u2, _) = c2.const_ { tcx.def_path_str(u2.def) } else { String::new() };
+                                                    vals.push((si.to_bits(si.size()).to_string(), d2));
+                                                } else {
+                                                    other += 1;
+                                                }
+                                            }
+                                            Rvalue::Ref(..) => {}
+                                            _ => other += 1,
+                                        }
+                                    }
+                                }
+                            }
+                            if vals.len() == 1 && other == 0 && pb.basic_blocks.len() == 1 {
+                                let _ = write!(s, ",\"pv\":{},\"pdef\":{}", esc(&vals[0].0), esc(&vals[0].1));
                             }
                         }
                     }
